@@ -114,6 +114,7 @@ def plan(tier):
     shards = [{"part": "grid", "i": i, "n": 4} for i in range(4)]
     shards += [dict(s, part="seq") for s in SEQ.plan(tier)]
     shards += [{"part": "clone", "i": i, "n": 2} for i in range(2)]
+    shards += [{"part": "watcher", "i": 0, "n": 1}]
     return shards
 
 
@@ -133,6 +134,18 @@ def work(shard, seed, tier):
     if shard["part"] == "seq":
         return SEQ.work(dict(shard, part="rand"), seed, tier)
     acc = Acc()
+    if shard["part"] == "watcher":
+        for P in TICKS:
+            for T in ("0.1", "0.25", "0.3", "0.5", "0.7", "1.0"):
+                for N in (2, 5, 9):
+                    case = {"P": P, "T": T, "N": N}
+                    fails = CG.check_watcher(case)
+                    acc.case(key=("watcher", P, T, N), nontrivial=True, classes=["aux-reads-main-clocks"],
+                             sample={"script": CG.watcher_script(T, N)} if (P, T, N) == ("0.125", "0.5", 5) else None)
+                    for sig, what in fails:
+                        acc.fail(sig, what, {"watcher": case})
+        acc.note("main framer clocks read by its auxiliary's transitions: tick periods x 6 thresholds x 3 counts enumerated")
+        return acc
     if shard["part"] == "clone":
         cases = [c for j, c in enumerate(clone_cases()) if j % shard["n"] == shard["i"]]
         for j, case in enumerate(cases):
@@ -164,6 +177,8 @@ def work(shard, seed, tier):
 
 
 def replay(case):
+    if "watcher" in case:
+        return CG.check_watcher(case["watcher"])
     if "clone" in case:
         return CG.check(case["clone"])[0]
     if "prog" in case:
